@@ -432,6 +432,14 @@ func (api *API) decodeArray(ctx context.Context, b []byte, value reflect.Value, 
 
 	// check if it is an array of bytes
 	if sliceValueType.AssignableTo(bytesType) {
+		// the encoder applies the length bounds of the type settings to byte arrays as well: what it would refuse to
+		// write is not accepted here either
+		if opts.validation {
+			if err := ts.checkMinMaxBounds(value); err != nil {
+				return 0, ierrors.Wrapf(err, "can't deserialize '%s' type", value.Kind())
+			}
+		}
+
 		deseri := serializer.NewDeserializer(b)
 		if objectType := ts.ObjectType(); objectType != nil {
 			typeDen, objectCode, err := getTypeDenotationAndCode(objectType)
